@@ -895,3 +895,46 @@ def capi_sessions(tier, seed):
     return [{"id": "capi/c13", "api": "c", "setup": CAPI_SETUP, "cases": c13},
             {"id": "capi/c24", "api": "c", "setup": CAPI_SETUP, "cases": c24},
             {"id": "capi/c14", "api": "c", "setup": CAPI_SETUP, "cases": c14}]
+
+
+# ----------------------------------------------------------------------------- C30: bulk load
+def bulk_sessions(tier, seed):
+    rng = random.Random(seed)
+    n_sets = 6 if tier == "quick" else 60
+    per = 10 if tier == "quick" else 25
+    VALS = [1, 2, 1.5, "a", "", True, False, [1, 2], ["x"], {"int": "9223372036854775807"}, {"fl": -0.5}, "R", "A"]
+    sessions = []
+    for g in range(n_sets):
+        flavour = ["plain", "norels", "parallel", "shared-names", "loops", "plain"][g % 6]
+        n = rng.randint(1, 6)
+        # names shared between labels and relationship types in one flavour
+        labels = ["A", "B"] if flavour != "shared-names" else ["A", "R", "S"]
+        nodes = []
+        for i in range(n):
+            props = {}
+            for k in rng.sample(["p", "q", "s"], rng.randint(0, 3)):
+                props[k] = rng.choice(VALS[:5] if k in ("p", "q") else VALS)
+            nodes.append({"ext": 1000 + i * 7, "label": rng.choice(labels), "props": props})
+        edges = []
+        if flavour != "norels":
+            for _ in range(rng.randint(1, 7)):
+                a, b = rng.randrange(n), rng.randrange(n)
+                if a == b and flavour != "loops":
+                    continue
+                props = {"w": rng.choice([1, 2, "a"])} if rng.random() < 0.5 else {}
+                edges.append({"src": nodes[a]["ext"], "type": rng.choice(["R", "S"] if flavour != "shared-names" else ["R", "A"]),
+                              "dst": nodes[b]["ext"], "props": props})
+            if flavour == "parallel" and edges:
+                # relationship properties belong to the (source, type, target) key, so a parallel
+                # relationship is given the same properties
+                edges.append(dict(rng.choice(edges)))
+        cases_by_mode = {}
+        for mode in ("bulk", "txn"):
+            qrng = random.Random(seed * 131 + g)      # the same queries on both databases
+            cases = []
+            for c in range(per):
+                ast, text = Gen(qrng).query()
+                cases.append({"cid": c + 1, "kind": "bread", "query": text, "meta": {"ast": ast, "flavour": flavour, "mode": mode}})
+            sessions.append({"id": "bulk/%d/%s" % (g, mode), "bulk": {"nodes": nodes, "edges": edges}, "bulk_mode": mode,
+                             "setup": [], "dump": True, "cases": cases})
+    return sessions
